@@ -394,7 +394,7 @@ def gen_energy_spec(rng: random.Random, sigma=None, fmt=None, simple: bool = Fal
     whole = sigma is None and rng.random() < 0.12
     return {"fmt": fmt or rng.choice(["xvg", "xvg", "csv"]), "legends": legends, "column": column, "n_hash": n_hash,
             "half_range": half_range, "whole_numbers": whole,
-            "n_at": rng.choice([10, 10, 0, 3, 14, rng.randint(0, 12)]), "sigma": sigma if sigma is not None else rng.choice([0.5, 2, 3, 5, 20]),
+            "n_at": rng.choice([10, 10, 0, 3, 14, rng.randint(0, 12)]), "sigma": sigma if sigma is not None else rng.choice([0.5, 1, 2, 3, 3, 5, 20]),
             "offset": rng.choice([0.0, -40.0, 12.5]), "seed": rng.randrange(2 ** 32),
             "numfmt": "gmx" if simple else rng.choice(["gmx", "gmx", "gmx_e", "repr", "g17"]),
             "zero_time": rng.random() < 0.5}
@@ -451,7 +451,7 @@ class PipelineCheck(Check):
         bud = self.budget(tier)
         spec = gen_grid_spec(rng, bud["max_cells"], allow_f12=rng.random() < 0.08)
         n = spec["n_b"] * spec["n_o"] * spec["n_t"]
-        T = rng.choice([200.0, 250.0, 273.0, 300.0, 400.0, round(rng.uniform(200, 400), 1)])
+        T = rng.choice([200.0, 250.0, 273.0, 300.0, 300.0, 350.0, 400.0, round(rng.uniform(230, 400), 1)])
         es = gen_energy_spec(rng)
         Dconst = 10 ** rng.uniform(-3, 3)
         # solver
